@@ -113,6 +113,11 @@ fn force_rcvbuf(fd: i32, bytes: i32) {
 impl Rig {
     /// Must be called from a named thread (Server::new unwraps the thread name).
     pub fn new(cfg: RigCfg, nclients: usize) -> Rig {
+        Rig::new_hc(cfg, nclients, None)
+    }
+
+    /// the same with a health-check listener on `hc_port`
+    pub fn new_hc(cfg: RigCfg, nclients: usize, hc_port: Option<u16>) -> Rig {
         let sock = MioUdp::bind(&"127.0.0.1:0".parse().unwrap()).expect("bind server socket");
         force_rcvbuf(sock.as_raw_fd(), 64 << 20);
         let addr = sock.local_addr().unwrap();
@@ -123,6 +128,7 @@ impl Rig {
         mc.client_stats = cfg.per_client;
         mc.kms_protection = KmsProtection::Plaintext;
         mc.num_workers = 1;
+        mc.health_check_port = hc_port;
         if let Some(st) = cfg.status {
             mc.status_interval = Duration::from_secs(st);
         }
